@@ -154,7 +154,7 @@ def report_missing_scan(rep, w: Walker, what: str, pre: str = "") -> bool:
     return True
 
 
-def check_knn_scan(rep, pre: str, scan: KnnScan, graph: Term, allow_self_skip: bool) -> None:
+def check_knn_scan(rep, pre: str, scan: KnnScan, graph: Term, allow_self_skip: bool, orientation: bool = True) -> None:
     """graph: the term of the graph whose nodes are the candidates."""
     w = scan.w
     fn = scan.fn
@@ -177,6 +177,15 @@ def check_knn_scan(rep, pre: str, scan: KnnScan, graph: Term, allow_self_skip: b
                "not hold the k nearest of ALL nodes")
     rep.fn(pre + "KNN-exhaustive", fn, "no early exit from the candidate scan", not early,
            f"{len(early)} early exit(s)", line=line)
+    # the candidate distance is d(query, candidate) in this order (what create_arcs, calculate_pdf and the two predict
+    # methods all use): for a non-symmetric dissimilarity the other order ranks by a different quantity
+    from .schema import weight_oriented
+    qn = scan.query_node
+    if orientation and qn is not None and nlc is not None and nlc[1] is not None:
+        cn = ("idx", ("attr", nlc[0], "nodes"), nlc[1])
+        for e in scan.weight_stores:
+            rep.ev(pre + "KNN-orientation", e, weight_oriented(e.value, qn, cn),
+                   "the candidate distance is not d(query node, candidate node) in this order")
     # weight written to slot k, index written to the same slot
     rep.fn(pre + "KNN-slot", fn, "the candidate distance is written to slot k of the distance buffer",
            len(scan.weight_stores) in (1, 2), f"found {len(scan.weight_stores)} store(s)", line=line)
